@@ -29,8 +29,8 @@ ASSUMPTIONS = [
     "a violation is attributed to write/writeSequence when that call's wire bytes differ from the reference escaping "
     "(IAC doubled, LF -> CR LF), otherwise to the receiving state machine; the verdict itself never depends on the reference wire",
 ]
-MIN = {"quick": {"evaluations": 300000, "nontrivial": 180000, "outcomes": 5},
-       "thorough": {"evaluations": 5000000, "nontrivial": 3000000, "outcomes": 5}}
+MIN = {"quick": {"evaluations": 340000, "nontrivial": 210000, "outcomes": 4},
+       "thorough": {"evaluations": 4800000, "nontrivial": 3500000, "outcomes": 4}}
 
 IAC, LF, CR = 0xFF, 0x0A, 0x0D
 ALPHA = [0xFF, 0x0A, 0x61, 0x00, 0xF0, 0xFA, 0xFB, 0xF1]
